@@ -225,12 +225,11 @@ def run(tier, seed, rng):
                         "operations": dict(dist), "outputs": dict(outs),
                         "precautions_before_unpropagated_edits": precautions,
                         "edits_meeting_live_copies": dict(met)}
-    out.notes.append("generator avoids the triggers of D38 (setparams on a child space / foreign base) and D39 (delspace of a "
-                     "space named as 'base'): %d edits were preceded by clear_items on every parametrised space" % precautions)
-    out.notes.append("inheritance class: %d edits that delete or re-derive the derived references of a static space seeing no "
-                     "cells were preceded by clear_items (finding D41/D41b); %d formula assignments below another definer "
-                     "were not generated (C03 D2)" % (inh_avoided["D41_edit_preceded_by_clear_items"],
-                                                      inh_avoided["D2_C03_setformula_below_an_override"]))
+    out.notes.append("generator avoids the trigger of D38 (setparams on a child space / foreign base): %d edits were preceded "
+                     "by clear_items on every parametrised space (D39, D41/D41b and C03-D2 are repaired in /repo and generated)"
+                     % precautions)
+    out.notes.append("inheritance class: %d formula assignments below another definer (the former trigger of C03 D2) generated"
+                     % inh_avoided["setformula_below_an_override_generated"])
     return out
 
 
